@@ -45,6 +45,10 @@ struct Ex {
 	proof: bool,
 	/// amount class: false = small, true = everything but the fee
 	big: bool,
+	/// (sends) before replying, the counterparty reflects the payer's first slate to the payer's own
+	/// foreign receive_tx: the payer then also holds a receive entry under the slate id, as in a self-send
+	#[serde(default)]
+	reflected: bool,
 }
 
 fn exchanges() -> (Vec<Ex>, Vec<String>) {
@@ -63,11 +67,14 @@ fn exchanges() -> (Vec<Ex>, Vec<String>) {
 							skipped.insert("0 change outputs × strategy all × small amount: spending every output for a small amount always leaves change".to_owned());
 							continue;
 						}
-						v.push(Ex { flow: *flow, change_n: *change_n, all: *all, proof: *proof, big: *big });
+						v.push(Ex { flow: *flow, change_n: *change_n, all: *all, proof: *proof, big: *big, reflected: false });
 					}
 				}
 			}
 		}
+	}
+	for proof in [false, true].iter() {
+		v.push(Ex { flow: Flow::Send, change_n: 1, all: false, proof: *proof, big: false, reflected: true });
 	}
 	(v, skipped.into_iter().collect())
 }
@@ -75,12 +82,14 @@ fn exchanges() -> (Vec<Ex>, Vec<String>) {
 /// the exchanges that receive the full mutation sweep in the quick tier / the pair sweep in the thorough tier
 fn swept() -> Vec<Ex> {
 	vec![
-		Ex { flow: Flow::Send, change_n: 1, all: false, proof: true, big: false },
-		Ex { flow: Flow::Late, change_n: 2, all: true, proof: true, big: false },
+		Ex { flow: Flow::Send, change_n: 1, all: false, proof: true, big: false, reflected: false },
+		Ex { flow: Flow::Late, change_n: 2, all: true, proof: true, big: false, reflected: false },
 		// a late-locked send that leaves spendable outputs over (a second selection is possible)
-		Ex { flow: Flow::Late, change_n: 1, all: false, proof: false, big: false },
-		Ex { flow: Flow::SelfSend, change_n: 0, all: false, proof: false, big: false },
-		Ex { flow: Flow::Invoice, change_n: 1, all: false, proof: false, big: false },
+		Ex { flow: Flow::Late, change_n: 1, all: false, proof: false, big: false, reflected: false },
+		Ex { flow: Flow::SelfSend, change_n: 0, all: false, proof: false, big: false, reflected: false },
+		Ex { flow: Flow::Invoice, change_n: 1, all: false, proof: false, big: false, reflected: false },
+		Ex { flow: Flow::Send, change_n: 1, all: false, proof: false, big: false, reflected: true },
+		Ex { flow: Flow::Send, change_n: 1, all: false, proof: true, big: false, reflected: true },
 	]
 }
 
@@ -185,6 +194,11 @@ enum Mu {
 	Proof(PAlt),
 	ProofAddUnrequested,
 	Dishonest(DisV),
+	/// the reply relabelled as the reply to an invoice (state Invoice2) with the fee field, which a
+	/// Standard2 reply carries as zero, set to the given value
+	Dressed(FeeV),
+	/// a consistent dishonest reply (see Dishonest) relabelled as the reply to an invoice
+	DressedDishonest(DisV),
 }
 
 fn alphabet() -> Vec<Mu> {
@@ -253,6 +267,12 @@ fn alphabet() -> Vec<Mu> {
 	v.push(Mu::ProofAddUnrequested);
 	for d in [DisV::FeeShift, DisV::FeeRaised, DisV::AmountClaimed].iter() {
 		v.push(Mu::Dishonest(*d));
+	}
+	for f in [FeeV::True, FeeV::TruePlus1, FeeV::TrueMinus1, FeeV::TrueShift1].iter() {
+		v.push(Mu::Dressed(*f));
+	}
+	for d in [DisV::FeeShift, DisV::FeeRaised].iter() {
+		v.push(Mu::DressedDishonest(*d));
 	}
 	v
 }
@@ -473,6 +493,24 @@ fn apply(mu: &Mu, v: &mut SlateV4, e: &Env) -> bool {
 				},
 			}
 		}
+		Mu::Dressed(f) => {
+			if e.flow == Flow::Invoice {
+				return false;
+			}
+			if !apply(&Mu::Fee(*f), v, e) {
+				return false;
+			}
+			v.sta = SlateStateV4::Invoice2;
+		}
+		Mu::DressedDishonest(d) => {
+			if e.flow == Flow::Invoice {
+				return false;
+			}
+			if !apply(&Mu::Dishonest(*d), v, e) {
+				return false;
+			}
+			v.sta = SlateStateV4::Invoice2;
+		}
 		Mu::Dishonest(d) => {
 			if e.flow == Flow::Invoice {
 				return false;
@@ -691,6 +729,10 @@ fn prepare(dir: &str, base: &Snapshot, ex: &Ex) -> Result<Snapshot, String> {
 			Flow::Send => {
 				let s1 = a.init_send(args).map_err(e2s)?;
 				a.lock(&s1).map_err(e2s)?;
+				if ex.reflected {
+					let _ = catch(|| a.receive(&s1, None));
+					let _ = take_last_panic();
+				}
 				let s2 = b.receive(&s1, None).map_err(e2s)?;
 				(s1, s2)
 			}
@@ -986,7 +1028,7 @@ fn run_case_inner(w: &World, ex: &Ex, mus: &[Mu], p: &Prep, mutated: &Slate, cha
 				return out;
 			}
 			let mut exp_outputs = exp_change.clone();
-			let deviating = mus.iter().any(|m| matches!(m, Mu::Dishonest(_) | Mu::Com(ComV::SplitRecipientOutput)));
+			let deviating = mus.iter().any(|m| matches!(m, Mu::Dishonest(_) | Mu::DressedDishonest(_) | Mu::Com(ComV::SplitRecipientOutput)));
 			if deviating {
 				// a deviating recipient chose its own output(s): they are whatever its reply carried, and (rewound
 				// with the recipient's keychain) must still be worth exactly the agreed amount
